@@ -392,6 +392,12 @@ def x_python(report):
                   "if input_type == SigInput.UNKNOWN: if do_raise: raise ValueError("):
         if piece not in lj:
             raise Unrecognised("load_signatures_from_json", "piece missing: " + piece)
+    if 'if ( hasattr(data, "mode") and "t" in data.mode ): data = data.buffer buf = data.read() data.close()' in lj:
+        detached = True      # the text wrapper is dropped before its buffer is read (closed by its finaliser)
+    elif 'if hasattr(data, "mode") and "t" in data.mode: buf = data.buffer.read() else: buf = data.read() data.close()' in lj:
+        detached = False
+    else:
+        raise Unrecognised("load_signatures_from_json", "text-mode file object handling is not one of the modelled shapes")
     if "for sig in sigs: yield sig.to_frozen() except Exception:" in lj:
         copies = True
     elif "for sig in sigs: sig.into_frozen() yield sig except Exception:" in lj:
@@ -408,7 +414,10 @@ def x_python(report):
             "/-- (candidate repair) text counts as a buffer only if it also starts with `[` -/\n"
             f"def sniffBracketGuard : Bool := {lean_bool(guard)}\n"
             "/-- `load_signatures_from_json` yields `sig.to_frozen()` (a copy with a fresh envelope) rather than the loaded object -/\n"
-            f"def loaderCopies : Bool := {lean_bool(copies)}\n")
+            f"def loaderCopies : Bool := {lean_bool(copies)}\n"
+            "/-- a text-mode file object is replaced by its `.buffer` before reading: if the caller holds no other\n"
+            "    reference, CPython finalises the wrapper, which closes the buffer (`read of closed file`) -/\n"
+            f"def textWrapperDropped : Bool := {lean_bool(detached)}\n")
 
 
 def x_text_layer(report):
